@@ -36,11 +36,16 @@ OsClear == <<0, 0, 0, 0>>
 (* nb = bound labels; gf = fixups on the holder's global list (detached from their label: cross-section or        *)
 (* out-of-range references); gb = how many of those carry no valid label id / section id; gd = digest of the list *)
 EmptyProj == [ss |-> <<>>, sd |-> <<>>, nl |-> 0, nf |-> 0, nr |-> 0, na |-> 0,
-              nn |-> 0, cu |-> 0, cs |-> 0, off |-> 0, nv |-> 0, nb |-> 0, gf |-> 0, gb |-> 0, gd |-> 0]
+              nn |-> 0, cu |-> 0, cs |-> 0, off |-> 0, nv |-> 0, nb |-> 0, gf |-> 0, gb |-> 0, gd |-> 0, eh |-> 1]
+
+(* eh = 1 iff the emitter's configuration is what was attached: error_handler() is the attached handler (pointer      *)
+(* identity; none when none), has_own_error_handler, logger identity, diagnostic options.  No call - least of all a  *)
+(* refused finalize() whose handler throws - may change it.                                                          *)
+ConfigIntact(np) == np.eh = 1
 
 (* A detached fixup always names its label (fixup.h): the consumers of the holder - resolve_cross_section_fixups, *)
 (* JitRuntime::add - index the label table with it.                                                              *)
-FixupsWellFormed(np) == np.gb = 0
+FixupsWellFormed(np) == np.gb = 0 /\ ConfigIntact(np)
 
 InstKinds == {"inst"}
 IsInst(k) == k \in InstKinds
@@ -162,7 +167,14 @@ FieldsInDocumentedRange(k, r, fr) == (IsInst(k) /\ cfg.arch # "a64" /\ Validatio
 (* documented not to change what is valid: accepted / refused must agree.                                               *)
 FastSlowAgree(k, r, tw) == (IsInst(k) /\ cfg.fast) => ((r = 0) <=> (tw = 0))
 
-Call(k, r, hc, th, osin, np, nos, vr, sh, fr, tw) ==
+(* embed_data_array on an Assembler: accepted => exactly item_count * size * repeat bytes were appended, computed as   *)
+(* integers.  ew = 1 iff that product does not fit (>= 2^31; the harness computes it in 128 bits), eb = the product   *)
+(* otherwise.  A wrapped product must be refused.                                                                     *)
+Sum(seq) == LET RECURSIVE S(_) S(i) == IF i = 0 THEN 0 ELSE seq[i] + S(i - 1) IN S(Len(seq))
+EmbedArrayExact(k, r, np, ew, eb) ==
+  (k = "earr" /\ cfg.em = "asm" /\ r = 0) => (ew = 0 /\ Sum(np.ss) - Sum(proj.ss) = eb)
+
+Call(k, r, hc, th, osin, np, nos, vr, sh, fr, tw, ew, eb) ==
   /\ IF k = "finalize" THEN FinalizeOutcome(r, hc, th, np)
      ELSE IF r = 0 THEN OkOutcome(k, hc, th, np)
      ELSE ErrOutcome(k, r, hc, th, osin, np, nos)
@@ -170,6 +182,7 @@ Call(k, r, hc, th, osin, np, nos, vr, sh, fr, tw) ==
   /\ VirtRule(k, r, vr)
   /\ FieldsInDocumentedRange(k, r, fr)
   /\ FastSlowAgree(k, r, tw)
+  /\ EmbedArrayExact(k, r, np, ew, eb)
   /\ proj' = np
   /\ os' = nos
   /\ pend' = IF IsInst(k) /\ r = 0 /\ sh # 0 /\ pend = 0 THEN sh ELSE pend
